@@ -39,6 +39,11 @@ pub fn generate(seed: u64, tier: &str, out: &mut dyn std::io::Write) {
             let reg = t.desc["regions"][0]["addr"].as_u64().unwrap();
             grow_at = reg + 4096;
             cfg.app_memory = vec![(reg + *Rng::for_case(seed, 1903, i).pick(&[0u64, 8, 4000]), 4096 + *Rng::for_case(seed, 1904, i).pick(&[1u64, 100, 4096]))];
+            // … and the caller describes the page that is not there yet as a module of its own: it is listed whether
+            // or not anything is mapped there, at every request
+            if Rng::for_case(seed, 1907, i).chance(2, 3) {
+                cfg.user_mappings = vec![(grow_at, 4096, 0, 0x15, "/caller/described/later.so".to_string(), Rng::for_case(seed, 1908, i).bytes(16))];
+            }
         }
         if bus {
             if let Some(m) = t.desc["lmods"].as_array().and_then(|a| a.first()) {
